@@ -22,6 +22,7 @@ type FuncInfo struct {
 	Encl *FuncInfo   // enclosing function for literals
 	g    *Graph
 	gi   *Graph // graph with helpers inlined
+	gis  *Graph // gi with compound bool returns decomposed (dataflow only)
 	// inlined: helper bodies and synthesized binding statements spliced into gi
 	inlined []ast.Node
 	// replaced: call statements whose effect is given by the spliced body
